@@ -44,6 +44,7 @@ type pathState struct {
 	reached   map[string]bool
 	callLog   []string
 	forged    map[*Term]bool
+	sectorAcc map[*value][]saNode
 }
 
 type hashApp struct {
